@@ -42,6 +42,31 @@ class _BlockBoom(Exception):
     pass
 
 
+# canary battery, run by every thread after its script under `with FST.options(**DEFAULTS)`: small edits through the
+# OPTION-LESS entry points (attribute / view-item assignment) on fresh trees.  Their results are constants of the library
+# (recorded from the unchanged tree, all checked by hand); anything an earlier call left behind in process- or
+# thread-wide state that changes them is a call whose options did not stay with that call.  The list starts with the
+# kinds of puts that have option special-casing of their own.
+BATTERY = [
+    ('from m import a, b\n', [('body', 0)], 'names', 0, 'z', 'from m import z, b\n'),
+    ('import a, b\n', [('body', 0)], 'names', 1, 'c.d', 'import a, c.d\n'),
+    ('with a, b: pass\n', [('body', 0)], 'items', 0, 'c as d', 'with c as d, b: pass\n'),
+    ('global a, b\n', [('body', 0)], 'names', 0, 'z', 'global z, b\n'),
+    ('del a, b\n', [('body', 0)], 'targets', 0, 'c', 'del c, b\n'),
+    ('class A(b): pass\n', [('body', 0)], 'bases', 0, 'x if y else z', 'class A(x if y else z): pass\n'),
+    ('def f(a, b=1): pass\n', [('body', 0), ('args', None)], 'defaults', 0, 'x if y else z', 'def f(a, b=x if y else z): pass\n'),
+    ('a * b\n', [('body', 0), ('value', None)], 'left', None, 'x + y', '(x + y) * b\n'),
+    ('[a, b]\n', [('body', 0), ('value', None)], 'elts', 0, 'x, y', '[(x, y), b]\n'),
+    ('not a\n', [('body', 0), ('value', None)], 'operand', None, 'x and y', 'not (x and y)\n'),
+    ('a.b\n', [('body', 0), ('value', None)], 'value', None, 'x + y', '(x + y).b\n'),
+    ('a ** b\n', [('body', 0), ('value', None)], 'left', None, '-x', '(-x) ** b\n'),
+    ('f(a)\n', [('body', 0), ('value', None)], 'args', 0, '*x, y', 'f((*x, y))\n'),
+    ('a if b else c\n', [('body', 0), ('value', None)], 'test', None, 'lambda: x', 'a if (lambda: x) else c\n'),
+    ('{a, b}\n', [('body', 0), ('value', None)], 'elts', 1, 'x := y', '{a, (x := y)}\n'),
+    ('a[b]\n', [('body', 0), ('value', None)], 'slice', None, 'x := y', 'a[(x := y)]\n'),
+]
+
+
 def gen_good(rng, k=None):
     keys = rng.sample(sorted(GOOD), k or rng.choice([1, 1, 2, 3]))
     return O.enc_opts({key: copy.deepcopy(rng.choice(GOOD[key])) for key in keys})
@@ -115,6 +140,34 @@ def gen_script_op(rng, root, depth=0):
     if 'opts' in op and rng.random() < 0.08:
         op['opts'] = O.enc_opts(rng.choice(BAD))
     return {'s': 'edit', 'op': op}
+
+
+def run_battery():
+    """Returns None or a description of the first canary edit whose result is not the library constant."""
+    import fst
+    out = []
+    bad = None
+    with fst.FST.options(**DEFAULTS):
+        for src, path, field, idx, code, want in BATTERY:
+            try:
+                t = fst.FST(src, 'exec')
+                n = t
+                for fld, i in path:
+                    n = getattr(n, fld)
+                    if i is not None:
+                        n = n[i]
+                if idx is None:
+                    setattr(n, field, code)
+                else:
+                    getattr(n, field)[idx] = code
+                got = t.src
+            except Exception as e:
+                got = 'EXC ' + O.exc_repr(e)
+            out.append(got)
+            if got != want and bad is None:
+                bad = (f'state left behind by earlier calls: the option-less edit {field}{"" if idx is None else [idx]} = {code!r} on a fresh tree {src!r} '
+                       f'under default options gives {got!r}, not {want!r}')
+    return bad
 
 
 class Worker:
@@ -265,11 +318,27 @@ class Worker:
                 rec = ('copy_exc', O.exc_repr(e))
         elif s == 'edit':
             eop = op['op']
+            as_put = False
             if self.explicit and 'opts' in eop and eop.get('k') not in ('put_docstr', 'put_line_comment'):  # these two have their own trivia default
                 eop = dict(eop, opts=O.enc_opts(dict(self.model, **O.dec_opts(eop.get('opts')))))
+            elif self.explicit and eop.get('k') in ('view_setitem', 'attr_set') and eop.get('field') and not eop['field'].startswith('_') \
+                    and (eop['k'] == 'attr_set' or isinstance(eop.get('idx'), int)) and eop.get('code', {}).get('form') != 'none':
+                # option-less entry points (view[i] = code, node.field = code for a single-valued field) are the same
+                # single-element put as node.put(code, [i,] field): the twin makes that call with the thread's effective
+                # defaults given explicitly
+                try:
+                    cur = getattr(O.resolve_f(self.root, eop['path']).a, eop['field'], None)
+                except Exception:
+                    cur = None
+                if eop['k'] == 'view_setitem' and isinstance(cur, list) and -len(cur) <= eop['idx'] < len(cur):  # (out of range: the view and put() refuse with different exceptions)
+                    eop = {'k': 'put', 'path': eop['path'], 'field': eop['field'], 'idx': eop['idx'], 'code': eop['code'], 'opts': O.enc_opts(dict(self.model))}
+                    as_put = True
+                elif eop['k'] == 'attr_set' and cur is not None and not isinstance(cur, list):
+                    eop = {'k': 'put', 'path': eop['path'], 'field': eop['field'], 'code': eop['code'], 'opts': O.enc_opts(dict(self.model))}
+                    as_put = True
             try:
                 r = O.apply_edit(self.root, eop, opt_objs=self.opt_objs)
-                rec = ('edit', O.result_repr(r))
+                rec = ('edit', O.result_repr(None if as_put else r))
             except O.Skip:
                 rec = ('edit_skip', None)
             except Exception as e:
@@ -507,6 +576,12 @@ class ThreadRun:
                                   f'thread {i} op {j}: relying on defaults={a[j] if j < len(a) else None!r} explicit={e[j] if j < len(e) else None!r} '
                                   f'script op={scripts_out[i][j] if j < len(scripts_out[i]) else None!r}', j)
                         break
+            # 4. canary battery (once per run, main thread): nothing the scripts did may have stayed behind in process-wide state
+            if self.viol is None:
+                bad = run_battery()
+                self.stats['battery_runs'] += 1
+                if bad:
+                    self.fail('option_of_an_earlier_call_still_in_effect', bad)
             log = [[w.record for w in alone], sched.decisions]
         finally:
             try:
